@@ -82,7 +82,15 @@ func buildPureContainer(cfg pureCfg) *restful.Container {
 		resp.WriteAsJson(b)
 	}
 	a := new(restful.WebService).Path("/a").Produces(restful.MIME_JSON)
-	a.Route(a.GET("/{id}").To(h))
+	// every service and one route have filters of their own (a chain is composed per request)
+	a.Filter(func(req *restful.Request, resp *restful.Response, chain *restful.FilterChain) {
+		resp.AddHeader("X-Svc-A", req.PathParameter("id"))
+		chain.ProcessFilter(req, resp)
+	})
+	a.Route(a.GET("/{id}").Filter(func(req *restful.Request, resp *restful.Response, chain *restful.FilterChain) {
+		resp.AddHeader("X-Route-A-Id", req.SelectedRoutePath())
+		chain.ProcessFilter(req, resp)
+	}).To(h))
 	a.Route(a.PUT("/{id}").To(h))
 	a.Route(a.GET("/{id}/sub/{x:*}").To(h))
 	a.Route(a.GET("/lit").To(h))
